@@ -19,6 +19,7 @@ fn main() {
         Some("c12-primex") => more::c12_primex(args.get(2).and_then(|s| s.parse().ok()).unwrap_or(200), args.get(3).and_then(|s| s.parse().ok())),
         Some("c12-structure") => more::c12_structure(args.get(2).and_then(|s| s.parse().ok()).unwrap_or(40)),
         Some("c13-primnames") => more::c13_primnames(),
+        Some("c13-text") => more::c13_text(),
         Some("c18-upcast") => more::c18_upcast(),
         Some("c10-mixed") => more::c10_mixed(),
         Some("c16-builders") => more::c16_builders(),
